@@ -486,7 +486,7 @@ def replay(prop, case):
     sc = [s for s in scenarios() if s["name"] == case["scenario"]][0]
     r = explore_scenario((sc, env.scratch_dir(), False))
     if r["problems"]:
-        print(f"VIOLATION property={prop} replay=(reproduced) {r['problems'][0]}")
+        print(f"VIOLATION property={prop} replay={__import__('os').environ.get('VERIF_REPLAY_PATH', '-')} {r['problems'][0]}")
         return 1
     print("not reproduced on this tree")
     return 0
